@@ -31,6 +31,16 @@ CHECKS = {
         technique="TLA+ survey model, TLC state enumeration, spec-behaviour replay into Cube"),
 }
 
+CHECKS["C04"] = dict(
+    text="Seeded samples of insertion configurations (addend/subtrahend sets over valid, "
+         "missing and stale ids, any anchor, view or transforms, hidden/malformed dicts) x "
+         "TLC-enumerated bags of respondents; Insertions.tla/Collate.tla resolve and place the "
+         "subtotals, Slice.tla defines every block (body, inserted rows/columns, "
+         "intersections) by one signed-indicator rule incl. the NaN and categorical-date "
+         "rules; replayed into Cube and compared cell by cell.",
+    ref="DESIGN.md section 4 C04",
+    technique="TLA+ survey + insertion model, TLC enumeration, spec-behaviour replay into Cube")
+
 NOT_YET = {}
 
 
